@@ -8,7 +8,7 @@ import re
 from harness import core, htmlnorm, treegen, trees, xdoc
 
 GEN = ['gen_tables', 'gen_regex', 'gen_config', 'gen_escapes', 'gen_core']
-THEOREMS = ['C03_breaks_in_paragraph_text', 'C03_breaks_instance', 'C03_image_in_sentence', 'C03_strike_in_sentence', 'C03_strike_in_sentence_hypotheses', 'C03_escape_in_sentence', 'C03_escape_in_sentence_hypotheses', 'C03_code_in_sentence', 'C03_code_in_sentence_hypotheses', 'C03_fragment_code_instance', 'C03_fragment_sentence_instance', 'C03_mixed_phrases', 'C03_mixed_phrases_instance', 'C03_link_phrases', 'C03_link_phrases_instance', 'C03_link_in_sentence', 'C03_fragment_link_instance', 'C03_fragment_seq_document', 'C03_fragment_seq_html', 'C03_fragment_lists_instance', 'C03_fragment_inert_instance', 'C03_fragment_emphasis_instance', 'C03_fragment_rules_instance', 'C03_thematic_break', 'C03_thematic_configs', 'C03_setext_heading', 'C03_setext_hypotheses', 'C03_indented_code_block', 'C03_indented_code_hypotheses', 'C03_link_scanners_are_the_source', 'C03_fragment_parses', 'C03_fragment_token_tree', 'C03_fragment_hypotheses', 'C03_fragment_fuel_suffices', 'C03_fragment_document',
+THEOREMS = ['C03_fragment_breaks_instance', 'C03_breaks_in_paragraph_text', 'C03_breaks_instance', 'C03_image_in_sentence', 'C03_strike_in_sentence', 'C03_strike_in_sentence_hypotheses', 'C03_escape_in_sentence', 'C03_escape_in_sentence_hypotheses', 'C03_code_in_sentence', 'C03_code_in_sentence_hypotheses', 'C03_fragment_code_instance', 'C03_fragment_sentence_instance', 'C03_mixed_phrases', 'C03_mixed_phrases_instance', 'C03_link_phrases', 'C03_link_phrases_instance', 'C03_link_in_sentence', 'C03_fragment_link_instance', 'C03_fragment_seq_document', 'C03_fragment_seq_html', 'C03_fragment_lists_instance', 'C03_fragment_inert_instance', 'C03_fragment_emphasis_instance', 'C03_fragment_rules_instance', 'C03_thematic_break', 'C03_thematic_configs', 'C03_setext_heading', 'C03_setext_hypotheses', 'C03_indented_code_block', 'C03_indented_code_hypotheses', 'C03_link_scanners_are_the_source', 'C03_fragment_parses', 'C03_fragment_token_tree', 'C03_fragment_hypotheses', 'C03_fragment_fuel_suffices', 'C03_fragment_document',
             'C03_fragment_html', 'C03_fragment_markdown_html', 'C03_fragment_html_instance', 'C03_fragment_paragraph_lines_instance', 'C03_fragment_headings_instance', 'C03_outline_lists', 'C03_outline_html', 'C03_outline_instance',
             'C03_fragment_document_markdown', 'C03_fragment_document_configs', 'C03_bounded_trees', 'C03_family_is_not_vacuous']
 TRUSTED = ['harness/treegen.py: the tree grammar, the speller (every free choice drawn and counted) and the direct HTML writer - the independent oracle; '
@@ -122,6 +122,9 @@ def frag_tree(rng, depth):
             # the text after the last segment: it too begins and ends with white space or punctuation (the theorem asks it of every segment), and the line must not end with white space
             segs[-1] = segs[-1][:-1] + (rng.choice(['.', ') .', ', x.', '"', '; ok.'] + ([''] if segs[-1][0] == 'lk' else [])),)
             return ('s', t0, segs)
+        if rng.random() < 0.12:                              # a paragraph whose lines are followed by any number of spaces (leaf FBrk)
+            lines = [' '.join([rng.choice(FRAG_FIRST if i == 0 else FRAG_CONT)] + [rng.choice(EM_WORDS + EM_INNER) for _ in range(rng.randint(0, 3))]) for i in range(rng.randint(2, 4))]
+            return ('b', [(l, rng.choice([0, 0, 1, 2, 2, 3, 6])) for l in lines[:-1]] + [(lines[-1], 0)])
         if rng.random() < 0.12:                              # a one-line paragraph with one code span (leaf FTick)
             pre = ' '.join([rng.choice(FRAG_FIRST)] + [rng.choice(EM_WORDS) for _ in range(rng.randint(0, 3))]) + rng.choice([' ', ' (', ', ', ': "', ''])
             post = rng.choice(['', '.', ' end', ', then more', ')', '" ok', '; z', '?x', 's'])
@@ -206,6 +209,9 @@ def frag_gallina(t):
         return '(FLink %d %s %s %s %s)' % (ord(t[1][0]), _zl(t[1][1:]), _zl(t[2]), _zl(t[3]), _zl(t[4]))
     if t[0] == 'c':
         return '(FTick %d %s %s %s)' % (ord(t[1][0]), _zl(t[1][1:]), _zl(t[2]), _zl(t[3]))
+    if t[0] == 'b':
+        (l0, k0), more = t[1][0], t[1][1:]
+        return '(FBrk %d %s %d [%s])' % (ord(l0[0]), _zl(l0[1:]), k0, '; '.join('(%s, %d%%nat)' % (_zl(l), k) for l, k in more))
     if t[0] == 's':
         segs = '; '.join('(MEm %d %d %s %s)' % (ord(g[1]), g[2] - 1, _zl(g[3]), _zl(g[4])) if g[0] == 'em' else '(MLk %s %s %s)' % (_zl(g[1]), _zl(g[2]), _zl(g[3])) for g in t[2])
         return '(FSent %d %s [%s])' % (ord(t[1][0]), _zl(t[1][1:]), segs)
@@ -231,7 +237,7 @@ def _frag_wf_shard(arg):
     os.makedirs(d, exist_ok=True)
     path = os.path.join(d, 'C03Cases%d.v' % k)
     with open(path, 'w') as f:
-        f.write('From Coq Require Import ZArith List Bool.\nFrom Mistletoe Require Import Base.Sx Base.PyStr Base.PyText Proofs.ListLaw Proofs.MixPhrases Proofs.CodeSpan Spec.Fragment Proofs.FragmentP.\n'
+        f.write('From Coq Require Import ZArith List Bool.\nFrom Mistletoe Require Import Base.Sx Base.PyStr Base.PyText Proofs.ListLaw Proofs.MixPhrases Proofs.CodeSpan Proofs.HardBreaks Proofs.BreakBlocks Spec.Fragment Proofs.FragmentP.\n'
                 'Import ListNotations.\nOpen Scope Z_scope.\nDefinition ts : list ftree := [\n  %s].\n'
                 'Eval vm_compute in map (fun t => (wf_b t, concat (text_of (spell t)))) ts.\n' % ';\n  '.join(frag_gallina(t) for t in ts))
     rc, out = core.sh(['coqc', '-Q', 'theories', 'Mistletoe', path], timeout=900, cwd=os.path.join(core.ROOT, 'coq'))
@@ -276,6 +282,8 @@ def frag_spell(t):
         return [t[1] + '[' + t[2] + '](' + t[3] + ')' + t[4]]
     if t[0] == 'c':
         return [t[1] + '`' + t[2] + '`' + t[3]]
+    if t[0] == 'b':
+        return [l + ' ' * k for l, k in t[1][:-1]] + [t[1][-1][0]]
     if t[0] == 's':
         return [t[1] + ''.join(g[1] * g[2] + g[3] + g[1] * g[2] + g[4] if g[0] == 'em' else '[' + g[1] + '](' + g[2] + ')' + g[3] for g in t[2])]
     if t[0] == 'f':
@@ -318,6 +326,29 @@ def code_runs_html(text):
     return out + esc(text[pos:])
 
 
+def code_lines_html(text):
+    """code spans in a paragraph of several lines (CommonMark): every line loses its leading spaces before the inline phase; in a code
+    span a line ending becomes a space (then one space is stripped on each side when both are there); outside, the spaces before a
+    line ending go, and two or more make the break a hard one.  The text holds only backticks, spaces, newlines and plain characters."""
+    esc = lambda x: x.replace('&', '&amp;').replace('<', '&lt;').replace('>', '&gt;')
+    text = '\n'.join(l.lstrip(' ') for l in text.split('\n'))
+    def outside(x):
+        x = re.sub(r' {2,}\n', '<br />\n', esc(x))
+        return re.sub(r' ?\n', '\n', x) if '<br />' not in x else re.sub(r'(?<!>) ?\n', '\n', x)
+    runs = [(m.start(), m.end()) for m in re.finditer('`+', text)]
+    out, pos, k = '', 0, 0
+    while k < len(runs):
+        a, b = runs[k]
+        close = next((j for j in range(k + 1, len(runs)) if runs[j][1] - runs[j][0] == b - a), None)
+        if close is None:
+            k += 1
+            continue
+        out += outside(text[pos:a]) + '<code>' + esc(code_parts(text[b:runs[close][0]].replace('\n', ' '))[1]) + '</code>'
+        pos = runs[close][1]
+        k = close + 1
+    return out + outside(text[pos:])
+
+
 def frag_expect(t, ln):
     """(dumped tree, line numbers in pre-order)"""
     if t[0] == 'p':
@@ -337,6 +368,13 @@ def frag_expect(t, ln):
     if t[0] == 'k':
         lk = [trees.TAGS['Link'], t[3], '', 'uri', [], '', [[0, t[2]]]]
         return [trees.TAGS['Paragraph'], [[0, t[1]], lk] + ([[0, t[4]]] if t[4] else [])], [ln]
+    if t[0] == 'b':
+        ch = []
+        for i, (l, k) in enumerate(t[1]):
+            ch.append([0, l])
+            if i + 1 < len(t[1]):
+                ch.append([trees.TAGS['LineBreak'], ' ' * k, k < 2])
+        return [trees.TAGS['Paragraph'], ch], [ln]
     if t[0] == 'c':
         pad, content = code_parts(t[2])
         return [trees.TAGS['Paragraph'], [[0, t[1]], [trees.TAGS['InlineCode'], '`', pad, content]] + ([[0, t[3]]] if t[3] else [])], [ln]
@@ -391,6 +429,9 @@ def frag_html(t, tight):
         tag = 'strong' if len(t[2]) == 2 else 'em'
         inner = esc(t[1]) + '<%s>%s</%s>' % (tag, esc(t[3]), tag) + esc(t[4])
         return inner if tight else '<p>' + inner + '</p>'
+    if t[0] == 'b':
+        inner = ''.join(esc(l) + ('<br />\n' if k >= 2 else '\n') for l, k in t[1][:-1]) + esc(t[1][-1][0])
+        return inner if tight else '<p>' + inner + '</p>'
     if t[0] == 'c':
         inner = esc(t[1]) + '<code>' + esc(code_parts(t[2])[1]) + '</code>' + esc(t[3])
         return inner if tight else '<p>' + inner + '</p>'
@@ -423,7 +464,7 @@ def frag_html(t, tight):
                 break
             node = node[4]
         tgl = not any(len(nd[3]) > 1 or (nd[0] == 'm' and nd[5]) for nd in nodes)
-        lis = ['<li>' + ('' if tgl and nd[3][0][0] in 'peksc' else '\n') + '\n'.join(frag_html(k, tgl) for k in nd[3]) + ('' if tgl and nd[3][-1][0] in 'peksc' else '\n') + '</li>' for nd in nodes]
+        lis = ['<li>' + ('' if tgl and nd[3][0][0] in 'peksbc' else '\n') + '\n'.join(frag_html(k, tgl) for k in nd[3]) + ('' if tgl and nd[3][-1][0] in 'peksbc' else '\n') + '</li>' for nd in nodes]
         if len(t[1]) == 1:
             return '<ul>\n' + '\n'.join(lis) + '\n</ul>'
         n = int(t[1][:-1])
@@ -433,8 +474,8 @@ def frag_html(t, tight):
     else:
         n = int(t[1][:-1])
         op, cl = ('<ol>' if n == 1 else '<ol start="%d">' % n), '</ol>'
-    return (op + '\n<li>' + ('' if tg and kids[0][0] in 'peksc' else '\n') + '\n'.join(frag_html(k, tg) for k in kids)
-            + ('' if tg and kids[-1][0] in 'peksc' else '\n') + '</li>\n' + cl)
+    return (op + '\n<li>' + ('' if tg and kids[0][0] in 'peksbc' else '\n') + '\n'.join(frag_html(k, tg) for k in kids)
+            + ('' if tg and kids[-1][0] in 'peksbc' else '\n') + '</li>\n' + cl)
 
 
 def outline_forest(rng, depth, width):
@@ -736,6 +777,15 @@ def run(ctx, only=None):
         text = ('w ' + ''.join(pieces)).rstrip(' ')
         ljobs.append((text + '\n', '<p>' + code_runs_html(text) + '</p>\n'))
         ctx.count('code_run_sentences')
+    # ... and over several lines: line endings inside and around the spans (code_lines_html)
+    for _ in range(1500 if ctx.quick() else 20000):
+        pieces = [rng.choice(['a', 'b c', 'x', ' ', 'y z', ' p ', 'é', 'q, r', '(t)', '\n', '\n', ' \n', '\n ', '`\n', '\n`', '``\n', '\n``']) if rng.random() < 0.6 else '`' * rng.randint(1, 3) for _ in range(rng.randint(3, 9))]
+        text = ('w ' + ''.join(pieces)).rstrip(' \n')
+        lines = text.split('\n')
+        if any(not l.strip(' ') or l.lstrip(' ').startswith('```') for l in lines) or '\n' not in text:
+            continue
+        ljobs.append((text + '\n', '<p>' + code_lines_html(text) + '</p>\n'))
+        ctx.count('code_run_paragraphs_of_several_lines')
     with mp.Pool(core.NPROC) as pool:
         lres = pool.map(markdown_worker, [t for t, _ in ljobs], chunksize=50)
     for (text, want), got in zip(ljobs, lres):
